@@ -58,7 +58,15 @@ def argv_of(job):
         a += ["warm=1"]
     if job.get("gens", 1) > 1:
         a += [f"gens={job['gens']}"]
+    a += [f"hang={hang_limit(job)}"]
     return a
+
+
+def hang_limit(job):
+    """Bounded liveness, in simulated seconds: no random() call may stay in flight this long without any
+    call starting or returning.  6x the predicted duration of the WHOLE run (>= 120 s), i.e. thousands of
+    times the duration of one call; fixed in the job so that a replay uses the same bound."""
+    return int(job.get("hang") or max(120, round(6 * predicted_cost(job))))
 
 
 def nthreads(job):
@@ -149,6 +157,12 @@ def run_job(job, sim_dir=SIM_DIR, repo_marker=REPO, timeout_factor=10.0, cancel=
     res = {"wall": wall, "log": out, "stderr": err[-20000:], "cmd": cmd, "flags": flags, "rc": p.returncode}
     if p.returncode == 0 and out.endswith("E\n"):
         res["status"] = "ok"
+        return res
+    if p.returncode == 3 and "HANG " in out:
+        line = [l for l in out.splitlines() if l.startswith("HANG ")][-1].split(" ")
+        calls = ", ".join("thread %s %s n=%s" % (c.split(":")[0], {"L": "Lut", "S": "LutN"}.get(c.split(":")[1], "?"), c.split(":")[2]) for c in line[3:])
+        res["status"] = "hang"
+        res["why"] = f"random() did not return: no call started or returned for {line[1]} simulated seconds (bound {hang_limit(job)}) while in flight: {calls}"
         return res
     res["status"], res["why"] = classify_failure(err, repo_marker)
     return res
